@@ -17,6 +17,16 @@ CLAIMED = {
         "DESIGN.md §2 C16",
     ),
 }
+CLAIMED["C06"] = (
+    "exploration",
+    "property-based testing (Hypothesis) with scripted numpy.random: exhaustive enumeration of the offset partition per generated (n,w) against an exact-rational model; index-tagged histories for Resampler.run; two-stage z-test for multinomial counts",
+    "For every generated (n, w) (sum within the sqrt(eps) band the routine accepts) the uniform offset is covered completely: every "
+    "breakpoint of the comb (exact rational), one ulp either side, every interval midpoint, 0 and nextafter(1,0); validity, floor/ceil "
+    "copy counts, no zero-weight selection, and the integral of the counts over u0 (= n*w_i, exact unbiasedness) are checked. Resampler.run "
+    "is driven on synthetic histories whose rows encode their own index. Exhaustive in u0, sampled in (n,w).",
+    "numpy.random is monkey-patched (module-level uniform functions); tolerance tau = n*|sum(w)-1| + 1e-9 copies; multinomial unbiasedness is statistical (alpha 1e-6 then 1e-4 retest).",
+    "DESIGN.md §2 C06",
+)
 
 ALL = [f"C{i:02d}" for i in range(1, 21)]
 
